@@ -39,6 +39,7 @@ Section CrashProofs.
   Record Inv (st : cstate) : Prop := {
     inv_id : forall i, i_id (Crash.c_mem st i) = i;
     inv_ph : forall i, progress_ok (Crash.c_mem st i) (Crash.c_ph st i);
+    inv_old : forall i x, Crash.c_old st i = Some x -> consistent x;
     inv_pend : forall c k r, In (k, r) (Crash.c_pend st c) -> good_row k r;
     inv_db : forall k r, lookup k (Crash.c_db st) = Some r -> good_row k r;
     inv_nodup : NoDup (keys (Crash.c_db st));
@@ -81,8 +82,10 @@ Section CrashProofs.
   (* every step that respects the order preserves the invariant *)
   Lemma inv_step : forall st x, Inv st -> step_ok st x = true -> Inv (do_step st x).
   Proof.
-    intros st x [Hid Hph Hpend Hdb Hnd Hsy Hret] Hok.
-    destruct x as [i|i|i|i|i v|j i|c i|c|i| |i v]; simpl in Hok; constructor; simpl; try assumption.
+    intros st x [Hid Hph Hold Hpend Hdb Hnd Hsy Hret] Hok.
+    destruct x as [i|i|i|i|i v|j i|c i|c|i| |i v|c i]; simpl in Hok;
+      [| | | | | | | | | | |destruct (Crash.c_old st i) as [xo|] eqn:Eo; [|discriminate]];
+      constructor; simpl; try rewrite Eo; simpl; try assumption.
     - (* SStart *) intros i0. upd_cases i0 i; [apply Hid | apply Hid].
     - intros i0. upd_cases i0 i; [exact I | apply Hph].
     - (* SCosts *) intros i0. upd_cases i0 i; [apply Hid | apply Hid].
@@ -111,14 +114,16 @@ Section CrashProofs.
     - intros i Hin. apply apply_pending_keys. apply in_app_or in Hin. destruct Hin as [Hin|Hin]; [left; exact Hin | right; apply Hsy; exact Hin].
     - intros i Hin. apply in_or_app. right. apply Hret. exact Hin.
     - (* SReturn *) intros i0 [<-|Hin]; [apply existsb_zeqb_in; exact Hok | apply Hret; exact Hin].
-    - (* SReopen *) intros i. destruct (lookup i (Crash.c_db st)) as [r|] eqn:E; [|apply Hid].
-      destruct (Hdb i r E) as [x [-> [Hx _]]]. unfold loaded_of_row. rewrite from_to_dict. simpl. exact Hx.
-    - intros i. destruct (lookup i (Crash.c_db st)) as [r|] eqn:E; [|apply Hph].
-      destruct (Hdb i r E) as [x [-> [Hx [Hc [Hs _]]]]]. unfold loaded_of_row. rewrite from_to_dict. simpl.
+    - (* SReopen *) intros i. exact I.
+    - intros i x E. destruct (lookup i (Crash.c_db st)) as [r|] eqn:El; [|discriminate]. simpl in E. inversion E; subst x.
+      destruct (Hdb i r El) as [x [-> [Hx [Hc [Hs _]]]]]. unfold loaded_of_row. rewrite from_to_dict. simpl.
       repeat split; [exact Hc | exact Hs | right; right; reflexivity].
     - intros c k r [].
     - (* SNew *) intros i0. upd_cases i0 i; [reflexivity | apply Hid].
     - intros i0. upd_cases i0 i; [exact I | apply Hph].
+    - (* SExecOld *) intros c0 k r. upd_cases c0 c; [|apply Hpend].
+      intros Hin. apply in_app_or in Hin. destruct Hin as [Hin|[Hin|[]]]; [eapply Hpend; exact Hin|].
+      inversion Hin; subst. exists xo. split; [reflexivity|]. split; [reflexivity | apply (Hold i); exact Eo].
   Qed.
 
   Lemma legal_app : forall p s st, legal st (p ++ s) = legal st p && legal (run_steps p st) s.
@@ -136,15 +141,19 @@ Section CrashProofs.
   Lemma inv_init : forall designs db0, NoDup (keys db0) ->
     (forall k r, lookup k db0 = Some r -> good_row k r) -> Inv (Crash.init_state designs db0).
   Proof.
-    intros designs db0 Hnd Hdb. constructor; simpl; try tauto; try assumption; try (intros; reflexivity); intros; exact I.
+    intros designs db0 Hnd Hdb. constructor; simpl; try tauto; try assumption; try (intros; reflexivity); try (intros; exact I); intros; discriminate.
   Qed.
 
   (* ids whose synchronisation has returned = the SReturn events of the trace *)
+  Lemma c_ret_step : forall st x,
+    Crash.c_ret (do_step st x) = match x with Crash.SReturn i => i :: Crash.c_ret st | _ => Crash.c_ret st end.
+  Proof. intros st x. destruct x; simpl; try reflexivity. destruct (Crash.c_old st i); reflexivity. Qed.
+
   Lemma ret_trace : forall tr st i,
     In i (Crash.c_ret (run_steps tr st)) <-> In (Crash.SReturn i) tr \/ In i (Crash.c_ret st).
   Proof.
     induction tr as [|x tr IH]; intros st i; simpl; [tauto|].
-    rewrite IH. destruct x; simpl; try (split; [intros [H|H]; auto | intros [[H|H]|H]; auto; discriminate]).
+    rewrite IH, c_ret_step. destruct x; simpl; try (split; [intros [H|H]; auto | intros [[H|H]|H]; auto; discriminate]).
     split.
     - intros [H|[H|H]]; auto. subst. left. left. reflexivity.
     - intros [[H|H]|H]; auto. inversion H. right. left. reflexivity.
@@ -175,7 +184,7 @@ Section CrashProofs.
   Proof.
     intros designs db0 tr pre Hnd Hdb HL [s ->]. cbv zeta.
     rewrite legal_app in HL. apply andb_true_iff in HL. destruct HL as [HL _].
-    pose proof (legal_inv pre _ (inv_init designs db0 Hnd Hdb) HL) as [Hid Hph Hpend Hdb' Hnd' Hsy Hret].
+    pose proof (legal_inv pre _ (inv_init designs db0 Hnd Hdb) HL) as [Hid Hph Hold Hpend Hdb' Hnd' Hsy Hret].
     unfold Crash.recovered. split; [exact Hnd'|]. split; [|split; [exact Hdb' | exact Hpend]].
     intros i Hin. apply Hsy, Hret. apply ret_trace. left. exact Hin.
   Qed.
